@@ -21,10 +21,10 @@ CLAIMS = {
               "PayloadMaxSize, sequence numbers increase by one modulo 2^16 from the encoder state across calls, marker/payload type/SSRC "
               "as stated, and the declared frame (only the sequence counter and fresh memory are written). Postconditions are taken from "
               "the property statement; callers are checked against callee contracts. Under contract: H264, H265, fragmented, KLV, LPCM, simple audio, "
-              "AC-3, MPEG-1 audio, VP8, VP9, MPEG-TS. A BOUNDED stand-in (labelled bounded, never counted among the obligations discharged, reported "
+              "AC-3, MPEG-1 audio, MPEG-4 audio (RFC 3640, with the AU-header section sized by a recursive specification function), MPEG-1 video (from the slices its start-code walk yields), VP8, VP9, MPEG-TS; for the AV1 packetizer the size limit is an assertion at every point where a packet is closed (LEB128 sizes in closed form). A BOUNDED stand-in (labelled bounded, never counted among the obligations discharged, reported "
               "separately in the evidence under bounded_stand_ins) checks the size limit and consecutive numbering on a finite grid of about 6500 real "
-              "encode runs that includes the encoders NOT under contract (MPEG-4 audio, MPEG-1 video, AV1)."),
-        note=TRUST + "Encoders not under contract (MPEG-4 audio, MPEG-1 video, M-JPEG, AV1 numbering) are decided only on the bounded grid (M-JPEG not at all); see DESIGN.md 8.2 and 8.7 and the evidence under not_decided.",
+              "encode runs that also covers what the contracts leave out (AV1 numbering, the final-return numbering clause of the MPEG-1 video encoder)."),
+        note=TRUST + "Not under contract: M-JPEG encoder (not decided at all), AV1 sequence numbering and marker (bounded grid only), the MPEG-1 video start-code walk (documented validity precondition; its index obligations are listed undecided) and the per-packet numbering clause of its Encode at the final return (undecided; helpers and loop proved). Assumed: mediacommon bits.WriteBitsUnsafe and av1.LEB128 contracts in /verif/specs; see DESIGN.md 8.2, 8.7, 8.8.",
         design="DESIGN.md section 4, C06",
     ),
 }
@@ -34,7 +34,7 @@ CLAIMS["C08"] = dict(
           "(index, slice, nil, division, make), the retention counters stay within the documented maximum (representation invariant "
           "re-established at exit), a call returns a frame or an error and a returned frame is within the maximum, and the frame "
           "condition that Decode writes no byte of any array that existed before the call (so frames already returned are never altered). "
-          "Under full contracts: H264, H265, fragmented, KLV, VP8 decoders; under no-panic and bounded-retention contracts: MPEG-4 audio, MPEG-1 audio, MPEG-1 video, AC-3, VP9, AV1, M-JPEG "
+          "Under full contracts: H264, H265, fragmented, KLV, VP8 decoders; AV1 decoder with the link between its size counter and the bytes actually retained (which exposed a defect, repaired, see known_findings.json); under no-panic and counter-bound contracts: MPEG-4 audio, MPEG-1 audio, MPEG-1 video, AC-3, VP9, M-JPEG "
           "decoders; swept for no-panic with inferred invariants: LPCM, simple audio, MPEG-TS decoders, the PTSEqualsDTS classifier of all 22 formats (it runs on every incoming "
           "packet) and the tolerant RTCP unmarshaler."),
     note=TRUST + "Packets are assumed to carry at most 65535 payload bytes (transport limit). Not decided: readAUHeaders' index into its own result, makeQuantizationTables' index into the package-level quantizer tables, pion and mediacommon parsers (assumed contracts).",
@@ -48,7 +48,7 @@ CLAIMS["C14"] = dict(
           "the skipped sequence numbers, restart detected after exactly buffer-size+1 negative packets; and of ProcessPacket2: counters "
           "(received, lost, since-report) advance by exactly the returned amounts, last sequence number and cycle counter updates. Wiring: both readPacketRTP "
           "functions call ProcessPacket2 once and hand every packet it releases to the application callback (one call per packet, loop invariant over a call counter); "
-          "the client turns reordering on exactly when the media arrives over UDP."),
+          "the client turns reordering on exactly when the media arrives over UDP. Receiver report: the fraction lost is lost*256/expected over the two per-interval counters (lost clamped to 24 bits), 0 when nothing was expected, and both counters restart with every report produced."),
     note=TRUST + "Loop invariants are hand-written and slot-indexed; the counting function cnt is introduced by definitional axioms and its two lemmas are proved by induction in the same run. Jitter (floating point) and the RTCP report formula are not decided.",
     design="DESIGN.md section 4, C14 and appendix C.1",
 )
@@ -90,7 +90,7 @@ CLAIMS["C07"] = dict(
           "the decoder state by itself (whatever partial state was left behind), a continuation packet carrying the expected sequence number "
           "while a frame is in progress is accepted, any other continuation is refused and the partial frame dropped, and a completed frame "
           "leaves no partial state; for the KLV decoder also that the packet following in sequence modulo 2^16 (65535 -> 0 included) is never taken for a loss. "
-          "These clauses give the property's conclusion by induction over the packet history."),
+          "for the AV1 decoder that a packet which continues nothing (Z=0) never adds to a partial OBU left behind by an earlier packet (a defect found by this clause was repaired, see known_findings.json). These clauses give the property's conclusion by induction over the packet history."),
     note=TRUST + "The induction over the packet history is an argument in DESIGN.md, not a machine-checked lemma. Decoders covered are listed in the evidence (functions_under_contract); the others are not decided.",
     design="DESIGN.md section 4, C07",
 )
@@ -110,7 +110,7 @@ CLAIMS["C09"] = dict(
           "parser (message, header, KEMAC, SP, T, RAND, key-data sub-payload) raises no run-time panic: every index, slice bound, nil "
           "dereference, conversion and make is an obligation discharged for all inputs and all loop iterations. The MIKEY length contracts "
           "(consumed bytes within the buffer) are proved per payload kind and used at the dynamic call through the Payload interface. Also proved: Basic credentials "
-          "are split at the first colon, and every KEMAC key-data sub-payload is a function of its own bytes."
+          "are split at the first colon, every KEMAC key-data sub-payload is a function of its own bytes, a MIKEY security-policy payload is refused for lack of bytes only when bytes are really lacking (a value may end exactly at the end of the buffer), and Marshal and Unmarshal of Basic credentials and of KeyMgmt use one and the same base64 alphabet (assertion on the receiver of the encode / decode call)."
           + B + "Unmarshal(Marshal(x)) == x, Marshal twice equal, value unchanged, over grids of all eight header types (about 236000 values) and 3024 MIKEY messages."),
     note=TRUST + "Round-trip identity and purity of Marshal are decided only on the bounded grid (not proved); independence of map iteration order is NOT decided (the order dependence of Transport/Range parsing is described in DESIGN.md section 5). Map iteration is modelled as yielding arbitrary key/value pairs; the iterator of strings.SplitSeq is assumed well behaved.",
     design="DESIGN.md section 4, C09",
@@ -155,7 +155,7 @@ CLAIMS["C17"] = dict(
     text=("Deductive proof of the no-downgrade decision points: isTransportSupported / pickFirstSupportedTransport accept a transport only if a secure profile "
           "comes with TLS, UDP over RTSPS uses the secure profile, and UDP is not tunnelled; the client follows a redirect only if an rtsps connection stays "
           "rtsps (assertion at the store of the new scheme); the client requests UDP over RTSPS only with the secure profile (assertions right after the check); "
-          "mikeyToContext pairs every roll-over counter with its own SSRC; on the three RTP write paths the buffer handed on is the encrypted one whenever an SRTP context exists, never the plain one."),
+          "mikeyToContext pairs every roll-over counter with its own SSRC and contextToMikey writes, for every SSRC in order, that SSRC's own counter; a SETUP reaches the application for a session that already has a transport only with the same protocol AND profile (assertion at the OnSetup call); on the three RTP write paths the buffer handed on is the encrypted one whenever an SRTP context exists, never the plain one."),
     note=TRUST + ABSTR + "That SRTP encrypts and authenticates (pion/srtp), key material carried by MIKEY end to end, and tamper rejection are NOT decided.",
     design="DESIGN.md section 4, C17",
 )
@@ -181,7 +181,7 @@ CLAIMS["C20"] = dict(
           "index or slice out of range, that a track id returned without error is never empty and path/query are never longer than the URL's, that "
           "URL.CloneWithoutCredentials yields a new URL without user info and otherwise equal fields, and that Media.URL yields a URL or an error. Also proved: the last "
           "'/trackID=' wins and the query form has priority over the path form; findMediaByURL matches a media only by equality with one of the URLs the server builds; "
-          "the advertised 'trackID=k' is the index findMediaByTrackID resolves back to the same media (over the assumed atou(itoa(k)) == k)."
+          "the advertised 'trackID=k' is the index findMediaByTrackID resolves back to the same media (over the assumed atou(itoa(k)) == k); on the record side prepareForAnnounce gives every media of the announced description the control attribute trackID=<its index>, whatever it carried before (medias assumed pairwise distinct)."
           + B + "client-side URL construction composed with the server-side analysis on 1728 stream URLs (hosts, paths and queries that themselves contain '/trackID=', "
           "credentials, 1-12 medias): at DESCRIBE, every SETUP, PLAY, ANNOUNCE and record-side SETUP the server sees the original path and query, each SETUP reaches its media, no credentials in a request line."),
     note=TRUST + "Agreement between client-side control-URL resolution and server-side analysis over ALL URLs (a statement over strings) is decided only on the bounded grid (not proved).",
